@@ -295,7 +295,8 @@ class SolutionRepository(Repository):
             None,
             None,
             "any",
-            (None, url),
+            # No link at all when the solution does not say where the pin came from.
+            (None, url) if url else None,
             DistributionType.SOURCE,
         )
         candidate.preparsed = metadata
